@@ -220,6 +220,155 @@ def check_tf(case, tf_call, source_desc, custom_fun):
     return None
 
 
+def _isqrt_float(q):
+    """sqrt of a non-negative Fraction as a double, without forming a huge float first"""
+    if q == 0:
+        return 0.0
+    k = 0
+    while q > 2 ** 200:
+        q, k = q / 4 ** 100, k + 100
+    while q < F(1, 2 ** 200):
+        q, k = q * 4 ** 100, k - 100
+    return math.sqrt(float(q)) * 2.0 ** k
+
+
+def exact_pearson(x, y):
+    """Pearson r of every row of `x` with every row of `y`: all moments in exact rational arithmetic
+    (two-pass textbook form; one square root and one division in doubles at the very end, so the
+    result is within a few ulp of the real value whatever the offset / scale of the rows);
+    None where a row has no variance (the property does not speak about 0/0)"""
+    def cen(row):
+        v = [_fr(u) for u in row]
+        mu = sum(v) / len(v)
+        return [u - mu for u in v]
+    xs, ys = [cen(r) for r in x], [cen(r) for r in y]
+    out = []
+    for a in xs:
+        saa = sum(u * u for u in a)
+        row = []
+        for b in ys:
+            sbb = sum(u * u for u in b)
+            sab = sum(u * w for u, w in zip(a, b))
+            if saa == 0 or sbb == 0:
+                row.append(None)
+            else:
+                r2 = sab * sab / (saa * sbb)         # exact, in [0, 1]
+                row.append(math.copysign(_isqrt_float(r2), sab) if sab != 0 else 0.0)
+        out.append(row)
+    return out
+
+
+def _solve_exact(mat, rhs):
+    """Gauss-Jordan over the rationals: mat^-1 rhs (rhs a list of columns)"""
+    k = len(mat)
+    aug = [list(mat[i]) + [c[i] for c in rhs] for i in range(k)]
+    for col in range(k):
+        piv = next(r for r in range(col, k) if aug[r][col] != 0)
+        aug[col], aug[piv] = aug[piv], aug[col]
+        p = aug[col][col]
+        aug[col] = [u / p for u in aug[col]]
+        for r in range(k):
+            if r != col and aug[r][col] != 0:
+                f = aug[r][col]
+                aug[r] = [u - f * w for u, w in zip(aug[r], aug[col])]
+    return [[aug[i][k + j] for i in range(k)] for j in range(len(rhs))]
+
+
+def exact_whitened_corr(x, y, sig, n):
+    """corr_cov from the definition, exactly: V = (C diag(sigma) C^T) squared element-wise over the
+    pairwise contrasts C (sigma = 1 when None), r = xc V^-1 yc / sqrt(xc V^-1 xc * yc V^-1 yc) of the
+    mean-removed rows; None where a row has no variance"""
+    pairs = [(i, j) for i in range(n) for j in range(i + 1, n)]
+    s = [F(1)] * n if sig is None else [_fr(v) for v in sig]
+    vm = []
+    for (i, j) in pairs:
+        row = []
+        for (k, l) in pairs:
+            xi = (s[i] if i == k else 0) - (s[i] if i == l else 0) - (s[j] if j == k else 0) + \
+                (s[j] if j == l else 0)
+            row.append(F(xi) * F(xi))
+        vm.append(row)
+
+    def cen(row):
+        v = [_fr(u) for u in row]
+        mu = sum(v) / len(v)
+        return [u - mu for u in v]
+    xs, ys = [cen(r) for r in x], [cen(r) for r in y]
+    wy = _solve_exact(vm, ys)
+    wx = _solve_exact(vm, xs)
+    out = []
+    for a, wa in zip(xs, wx):
+        saa = sum(u * w for u, w in zip(a, wa))
+        row = []
+        for b, wb in zip(ys, wy):
+            sbb = sum(u * w for u, w in zip(b, wb))
+            sab = sum(u * w for u, w in zip(a, wb))
+            if saa <= 0 or sbb <= 0:
+                row.append(None)
+            else:
+                r2 = sab * sab / (saa * sbb)
+                row.append(math.copysign(_isqrt_float(r2), sab) if sab != 0 else 0.0)
+        out.append(row)
+    return out
+
+
+def exact_kendall(x, y, variant):
+    """Kendall tau-a / tau-b from the definition over all pairs (exact counts; one square root for
+    tau-b); None where the denominator vanishes"""
+    out = []
+    for a in x:
+        a = [_fr(u) for u in a]
+        row = []
+        for b in y:
+            b = [_fr(u) for u in b]
+            con = dis = tx = ty = tot = 0
+            for i in range(len(a)):
+                for j in range(i + 1, len(a)):
+                    tot += 1
+                    sa, sb = (a[i] > a[j]) - (a[i] < a[j]), (b[i] > b[j]) - (b[i] < b[j])
+                    tx += sa == 0
+                    ty += sb == 0
+                    con += sa * sb > 0
+                    dis += sa * sb < 0
+            if variant == 'tau-a':
+                row.append((con - dis) / tot if tot else None)
+            else:
+                den = (tot - tx) * (tot - ty)
+                row.append((con - dis) / math.sqrt(den) if den > 0 else None)
+        out.append(row)
+    return out
+
+
+def exact_reference(case):
+    """the value the property fixes for a correlation-type or Kendall-type case, from the exact
+    UNTRANSFORMED rows (NaN positions dropped): no library code, no doubles before the final square root"""
+    nanpos = set(case.get('nanpos') or [])
+    x = [[v for k, v in enumerate(r) if k not in nanpos] for r in case['x']]
+    y = [[v for k, v in enumerate(r) if k not in nanpos] for r in case['y']]
+    if case['method'] == 'corr':
+        return exact_pearson(x, y)
+    if case['method'] in ('kendall', 'tau-a'):
+        return exact_kendall(x, y, 'tau-a' if case['method'] == 'tau-a' else 'tau-b')
+    if case['method'] == 'corr_cov' and not nanpos:
+        return exact_whitened_corr(x, y, None if case['sigma'] is None else case['sigma']['vec'], case['n'])
+    return None
+
+
+def against_exact(case, got, tol):
+    """first entry of the similarity matrix `got` that differs from the exact reference, or None"""
+    rtol, atol = tol
+    ref = exact_reference(case)
+    if ref is None or isinstance(got, dict):
+        return None
+    for i, (ra, rb) in enumerate(zip(got, ref)):
+        for j, (u, v) in enumerate(zip(ra, rb)):
+            if v is None:
+                continue
+            if u is None or not _close(u, v, rtol, atol):
+                return i, j, u, v
+    return None
+
+
 def check_inv(case, inv_call, tol):
     rtol, atol = tol
     feat = dict(method=case['method'], map=case['fx']['name'], claim='invariance')
@@ -251,6 +400,15 @@ def check_inv(case, inv_call, tol):
             if not _close(u, v, rtol, atol):
                 return _fail(f"{case['method']} changed by {case['fx']['name']}"
                              f"{'/' + case['fy']['name'] if case['fy'] else ''}", [i, j, u], v, **feat)
+    # correlation-type measures: both sides above come from the library; the property fixes the value
+    # itself -- the exact (rational-arithmetic) correlation of the untransformed RDMs
+    for which, got in (('after ' + case['fx']['name'] + ('/' + case['fy']['name'] if case['fy'] else ''), a),
+                       ('of the untransformed RDMs', b)):
+        bad = against_exact(case, got, tol)
+        if bad is not None:
+            i, j, u, v = bad
+            return _fail(f"{case['method']} {which} is not the exact {case['method']} of the original RDMs",
+                         [i, j, u], v, **feat)
     return None
 
 
